@@ -69,6 +69,14 @@ abbrev AllEv (P : Event α → Prop) (st : St α) : Prop := AllEvL P st.ev
 @[simp] theorem log_msg (st : St α) (e : Event α) : (log st e).msg = st.msg := rfl
 @[simp] theorem log_ev (st : St α) (e : Event α) : (log st e).ev = st.ev ++ [e] := rfl
 
+theorem Act.eq_cases (a : Act) :
+    a = .ok ∨ a = .fail ∨ a = .throwStd ∨ a = .throwOther ∨ a = .throwLong := by
+  cases a <;> simp
+
+theorem Res.eq_cases (a : Res) :
+    a = .success ∨ a = .failure ∨ a = .unreliable ∨ a = .throwStd ∨ a = .throwOther ∨ a = .throwLong := by
+  cases a <;> simp
+
 theorem Act.thrown_none_iff (a : Act) (s : Stage) : a.thrown s = none ↔ (a = .ok ∨ a = .fail) := by
   cases a <;> simp [Act.thrown]
 
@@ -131,7 +139,8 @@ theorem stepPred_all (v : Variant) (s : Script α) (st : St α) (h : AllEv P st)
     (h4 : P (.write .kpred)) : (stepPred v s st).Sat (always (AllEv P)) := by
   unfold stepPred
   apply R.bind_sat (AllEv P)
-  · split
+  · unfold stepPredSos
+    split
     · rename_i hf
       apply R.bind_sat (AllEv P)
       · exact stepSosCompute_all P s false st h (by simpa using h0 hf)
@@ -139,6 +148,7 @@ theorem stepPred_all (v : Variant) (s : Script α) (st : St α) (h : AllEv P st)
         simp_all [always, AllEv, or_imp]
     · simpa [always, AllEv, or_imp] using h
   · intro st hst
+    unfold stepPredOp
     split
     · simp_all [always, AllEv, or_imp]
     · rename_i hp
@@ -310,6 +320,271 @@ theorem body_all (v : Variant) (s : Script α) (st : St α) (hP : ∀ e, PreEv v
     split
     · exact tailLate_all P s st (fun e he => hP e (Or.inr he)) h
     · exact tailEarly_all P s st (fun e he => hP e (Or.inr he)) h
+
+/-! ### exit codes and `rdt` of each step, as functions of the script alone -/
+
+/-- the value returned by `integrate` if this piece ends the call (`none`: it falls through) -/
+def R.code : R α → Option Int
+  | .next _ => none
+  | .ret c _ => some c
+  | .thr _ _ => some (-1)
+
+@[simp] theorem R.code_next (st : St α) : (R.next st).code = none := rfl
+@[simp] theorem R.code_ret (c : Int) (st : St α) : (R.ret c st).code = some c := rfl
+@[simp] theorem R.code_thr (m : Msg) (st : St α) : (R.thr m st).code = some (-1) := rfl
+@[simp] theorem R.st_next (st : St α) : (R.next st).st = st := rfl
+@[simp] theorem R.st_ret (c : Int) (st : St α) : (R.ret c st).st = st := rfl
+@[simp] theorem R.st_thr (m : Msg) (st : St α) : (R.thr m st).st = st := rfl
+
+omit [LT α] [DecidableRel (fun a b : α => a < b)] [Sub α] [Neg α] [OfScientific α] in
+theorem R.code_bind (r : R α) (f : St α → R α) :
+    (r.bind f).code = match r.code with
+      | some c => some c
+      | none => (f r.st).code := by
+  cases r <;> rfl
+
+omit [LT α] [DecidableRel (fun a b : α => a < b)] [Sub α] [Neg α] [OfScientific α] in
+theorem R.st_bind (r : R α) (f : St α → R α) :
+    (r.bind f).st = match r.code with
+      | some _ => r.st
+      | none => (f r.st).st := by
+  cases r <;> rfl
+
+macro "code_cases" : tactic =>
+  `(tactic| ((repeat' split) <;> simp_all [R.code, R.st, R.bind, Act.thrown, Res.thrown]))
+
+omit [LT α] [DecidableRel (fun a b : α => a < b)] [Sub α] [Neg α] [OfScientific α] in
+theorem stepInit_code (s : Script α) (st : St α) :
+    (stepInit s st).code = if s.init = .ok then none else some (-1) := by
+  unfold stepInit
+  rcases Act.eq_cases s.init with h | h | h | h | h <;> simp [h, R.code, Act.thrown]
+
+/-- `checkBounds` raises: the real bounds check under `Strict`, or the scripted throw -/
+def cbRaises (s : Script α) : Prop :=
+  (s.oob ≠ .inside ∧ s.policy = .strict) ∨ (s.cb ≠ .ok ∧ s.cb ≠ .fail)
+
+instance (s : Script α) : Decidable (cbRaises s) := by unfold cbRaises; infer_instance
+
+omit [LT α] [DecidableRel (fun a b : α => a < b)] [Sub α] [Neg α] [OfScientific α] in
+theorem stepCheckBounds_code (s : Script α) (st : St α) :
+    (stepCheckBounds s st).code = if cbRaises s then some (-1) else none := by
+  unfold stepCheckBounds cbRaises
+  rcases Act.eq_cases s.cb with h | h | h | h | h <;> simp only [h] <;> code_cases
+
+/-- a void method of the behaviour does not throw -/
+def Act.quiet (a : Act) : Prop := a = .ok ∨ a = .fail
+instance (a : Act) : Decidable a.quiet := by unfold Act.quiet; infer_instance
+
+/-- a method returning an `IntegrationResult` reports success -/
+def Res.good (a : Res) : Prop := a = .success ∨ a = .unreliable
+instance (a : Res) : Decidable a.good := by unfold Res.good; infer_instance
+
+omit [LT α] [DecidableRel (fun a b : α => a < b)] [Sub α] [Neg α] [OfScientific α] in
+theorem stepSosCompute_code (s : Script α) (b : Bool) (st : St α) :
+    (stepSosCompute s b st).code = if s.sos.quiet then none else some (-1) := by
+  unfold stepSosCompute Act.quiet
+  rcases Act.eq_cases s.sos with h | h | h | h | h <;> simp [h, R.code, Act.thrown]
+
+/-- `exportTangentOperator(d.K, b.getTangentOperator())` completes -/
+def toExported (s : Script α) : Prop := s.gto.quiet ∧ ¬ (s.fs = true ∧ s.toEmpty = true)
+instance (s : Script α) : Decidable (toExported s) := by unfold toExported; infer_instance
+
+omit [LT α] [DecidableRel (fun a b : α => a < b)] [Sub α] [Neg α] [OfScientific α] in
+theorem stepExportTO_code (s : Script α) (o : Out) (st : St α) :
+    (stepExportTO s o st).code = if toExported s then none else some (-1) := by
+  unfold stepExportTO toExported Act.quiet
+  rcases Act.eq_cases s.gto with h | h | h | h | h <;> simp only [h] <;> code_cases
+
+omit [LT α] [DecidableRel (fun a b : α => a < b)] [Sub α] [Neg α] [OfScientific α] in
+theorem stepEnergyCompute_code (has : Bool) (a : Act) (sg : Stage) (e : Event α) (st : St α) :
+    (stepEnergyCompute has a sg e st).code = if has = true ∧ ¬ a.quiet then some (-1) else none := by
+  unfold stepEnergyCompute Act.quiet
+  cases a <;> cases has <;> simp [R.code, Act.thrown]
+
+/-- the three steps of the integration proper all succeed -/
+def integrationOk (s : Script α) : Prop := s.ap = .ok ∧ s.integ.good ∧ s.apo = .ok
+instance (s : Script α) : Decidable (integrationOk s) := by unfold integrationOk; infer_instance
+
+omit [Sub α] [Neg α] [OfScientific α] in
+theorem stepIntegrate_code (s : Script α) (smt : SMType) (st : St α) :
+    (stepIntegrate s smt st).code = if integrationOk s then none else some (-1) := by
+  unfold stepIntegrate integrationOk Res.good
+  rcases Act.eq_cases s.ap with h1 | h1 | h1 | h1 | h1 <;>
+    rcases Res.eq_cases s.integ with h2 | h2 | h2 | h2 | h2 | h2 <;>
+    rcases Act.eq_cases s.apo with h3 | h3 | h3 | h3 | h3 <;>
+    simp [h1, h2, h3, R.code, Act.thrown, Res.thrown]
+
+/-- the prediction branch succeeds -/
+def predictionOk (s : Script α) : Prop :=
+  (flagged s.k0 = true → s.sos.quiet) ∧ s.traits.hasPred = true ∧ s.pred.good ∧ toExported s
+instance (s : Script α) : Decidable (predictionOk s) := by unfold predictionOk; infer_instance
+
+theorem stepPredSos_code (s : Script α) (st : St α) :
+    (stepPredSos s st).code = if flagged s.k0 = true ∧ ¬ s.sos.quiet then some (-1) else none := by
+  unfold stepPredSos
+  by_cases hf : flagged s.k0 = true <;> by_cases hq : s.sos.quiet <;>
+    simp [R.code_bind, stepSosCompute_code, hf, hq]
+
+theorem stepPredOp_code (v : Variant) (s : Script α) (st : St α) :
+    (stepPredOp v s st).code =
+      if s.traits.hasPred = true ∧ s.pred.good ∧ toExported s then some 1 else some (-1) := by
+  unfold stepPredOp
+  rcases Res.eq_cases s.pred with hp | hp | hp | hp | hp | hp <;>
+    by_cases hh : s.traits.hasPred = true <;> by_cases ht : toExported s <;>
+    simp [R.code_bind, stepExportTO_code, Res.thrown, Res.good, hh, ht, hp]
+
+theorem stepPred_code (v : Variant) (s : Script α) (st : St α) :
+    (stepPred v s st).code = if predictionOk s then some 1 else some (-1) := by
+  unfold stepPred predictionOk
+  rw [R.code_bind, stepPredSos_code, stepPredOp_code]
+  by_cases hf : flagged s.k0 = true <;> by_cases hq : s.sos.quiet <;>
+    by_cases hh : s.traits.hasPred = true ∧ s.pred.good ∧ toExported s <;> simp_all
+
+/-- exit code of `pre` -/
+theorem pre_code (v : Variant) (s : Script α) (st : St α) :
+    (pre v s st).code =
+      if s.init ≠ .ok ∨ cbRaises s then some (-1)
+      else if isPrediction (effK0 s.k0) = true then (if predictionOk s then some 1 else some (-1))
+      else if s.traits.hasCTO = false ∧ integSmt (effK0 s.k0) ≠ .noStiffness then some (-1)
+      else if integrationOk s then none else some (-1) := by
+  unfold pre
+  simp only [R.code_bind, stepInit_code, stepCheckBounds_code]
+  by_cases hi : s.init = .ok <;> by_cases hc : cbRaises s <;> simp [hi, hc]
+  by_cases hp : isPrediction (effK0 s.k0) = true
+  · simp [hp, stepPred_code]
+  · by_cases hc' : s.traits.hasCTO = false ∧ integSmt (effK0 s.k0) ≠ .noStiffness
+    · simp [hp, hc']
+    · have : ¬ ((!s.traits.hasCTO) = true ∧ integSmt (effK0 s.k0) ≠ .noStiffness) := by simpa using hc'
+      simp only [hp, this, hc', if_false, stepIntegrate_code, Bool.false_eq_true]
+
+/-- what follows a successful integration succeeds (same condition in both orders) -/
+def tailOk (s : Script α) : Prop :=
+  (s.traits.hasCTO = true ∧ (0.5 : α) < effK0 s.k0 → toExported s) ∧
+  (s.traits.hasIE = true → s.ie.quiet) ∧ (s.traits.hasDE = true → s.de.quiet) ∧
+  (flagged s.k0 = true → s.sos.quiet)
+instance (s : Script α) : Decidable (tailOk s) := by unfold tailOk; infer_instance
+
+theorem tailEarly_code (s : Script α) (st : St α) :
+    (tailEarly s (effK0 s.k0) st).code = if tailOk s then none else some (-1) := by
+  unfold tailEarly tailOk
+  simp only [R.code_bind, stepEnergyCompute_code, stepSosCompute_code]
+  by_cases hc : s.traits.hasCTO = true ∧ (0.5 : α) < effK0 s.k0 <;> by_cases ht : toExported s <;>
+    by_cases h1 : s.traits.hasIE = true <;> by_cases q1 : s.ie.quiet <;>
+    by_cases h2 : s.traits.hasDE = true <;> by_cases q2 : s.de.quiet <;>
+    by_cases hf : flagged s.k0 = true <;> by_cases q3 : s.sos.quiet <;>
+    simp [R.code_bind, stepExportTO_code, stepEnergyCompute_code, stepSosCompute_code, hc, ht, h1, q1, h2, q2, hf, q3]
+
+theorem tailLate_code (s : Script α) (st : St α) :
+    (tailLate s (effK0 s.k0) st).code = if tailOk s then none else some (-1) := by
+  unfold tailLate tailOk
+  simp only [R.code_bind, stepEnergyCompute_code, stepSosCompute_code]
+  by_cases hc : s.traits.hasCTO = true ∧ (0.5 : α) < effK0 s.k0 <;> by_cases ht : toExported s <;>
+    by_cases h1 : s.traits.hasIE = true <;> by_cases q1 : s.ie.quiet <;>
+    by_cases h2 : s.traits.hasDE = true <;> by_cases q2 : s.de.quiet <;>
+    by_cases hf : flagged s.k0 = true <;> by_cases q3 : s.sos.quiet <;>
+    simp [R.code_bind, stepExportTO_code, stepEnergyCompute_code, stepSosCompute_code, hc, ht, h1, q1, h2, q2, hf, q3]
+
+/-- exit code of the whole `try` block -/
+theorem body_code (v : Variant) (s : Script α) (st : St α) :
+    (body v s st).code = match (pre v s st).code with
+      | some c => some c
+      | none => if tailOk s then none else some (-1) := by
+  unfold body
+  rw [R.code_bind]
+  split
+  · rfl
+  · split <;> simp [tailLate_code, tailEarly_code]
+
+/-- the return value in terms of the exit code of the `try` block -/
+theorem integrate_ret_some (v : Variant) (s : Script α) {c : Int}
+    (h : (body v s (st0 s)).code = some c) : (integrate v s).ret = c := by
+  unfold integrate
+  split <;> rename_i heq <;> simp [heq] at h ⊢ <;> omega
+
+theorem integrate_ret_none (v : Variant) (s : Script α) (h : (body v s (st0 s)).code = none) :
+    (integrate v s).ret = (if (integrate v s).st.rdt < (0.99 : α) then 0 else 1) ∧
+    (integrate v s).st = (body v s (st0 s)).st := by
+  unfold integrate
+  split <;> rename_i heq <;> simp [heq] at h ⊢
+
+/-! ### `rdt` -/
+
+macro "rdt_cases" : tactic =>
+  `(tactic| ((repeat' split) <;> simp_all [R.st_bind]))
+
+omit [LT α] [DecidableRel (fun a b : α => a < b)] [Sub α] [Neg α] [OfScientific α] in
+theorem stepInit_rdt (s : Script α) (st : St α) : (stepInit s st).st.rdt = st.rdt := by
+  unfold stepInit; rdt_cases
+
+omit [LT α] [DecidableRel (fun a b : α => a < b)] [Sub α] [Neg α] [OfScientific α] in
+theorem stepCheckBounds_rdt (s : Script α) (st : St α) : (stepCheckBounds s st).st.rdt = st.rdt := by
+  unfold stepCheckBounds; rdt_cases
+
+omit [LT α] [DecidableRel (fun a b : α => a < b)] [Sub α] [Neg α] [OfScientific α] in
+theorem stepSosCompute_rdt (s : Script α) (b : Bool) (st : St α) :
+    (stepSosCompute s b st).st.rdt = st.rdt := by
+  unfold stepSosCompute; rdt_cases
+
+omit [LT α] [DecidableRel (fun a b : α => a < b)] [Sub α] [Neg α] [OfScientific α] in
+theorem stepExportTO_rdt (s : Script α) (o : Out) (st : St α) : (stepExportTO s o st).st.rdt = st.rdt := by
+  unfold stepExportTO; rdt_cases
+
+omit [LT α] [DecidableRel (fun a b : α => a < b)] [Sub α] [Neg α] [OfScientific α] in
+theorem stepEnergyCompute_rdt (has : Bool) (a : Act) (sg : Stage) (e : Event α) (st : St α) :
+    (stepEnergyCompute has a sg e st).st.rdt = st.rdt := by
+  unfold stepEnergyCompute; rdt_cases
+
+omit [LT α] [DecidableRel (fun a b : α => a < b)] [Sub α] [Neg α] [OfScientific α] in
+theorem storeIf_rdt (c : Bool) (o : Out) (st : St α) : (storeIf c o st).rdt = st.rdt := by
+  unfold storeIf; split <;> simp
+
+omit [LT α] [DecidableRel (fun a b : α => a < b)] [Sub α] [Neg α] [OfScientific α] in
+theorem stepExportState_rdt (st : St α) : (stepExportState st).rdt = st.rdt := by
+  simp [stepExportState]
+
+theorem stepPred_rdt (v : Variant) (s : Script α) (st : St α) : (stepPred v s st).st.rdt = st.rdt := by
+  have h1 : (stepPredSos s st).st.rdt = st.rdt := by
+    unfold stepPredSos
+    split
+    · rw [R.st_bind]; split <;> simp [stepSosCompute_rdt]
+    · simp
+  have h2 : ∀ st : St α, (stepPredOp v s st).st.rdt = st.rdt := by
+    intro st
+    unfold stepPredOp
+    split
+    · simp
+    · simp only []
+      split
+      · simp
+      · split
+        · simp
+        · rw [R.st_bind]; split <;> simp [stepExportTO_rdt]
+  unfold stepPred
+  rw [R.st_bind]
+  split
+  · exact h1
+  · rw [h2, h1]
+
+theorem tailEarly_rdt (s : Script α) (ke : α) (st : St α) : (tailEarly s ke st).st.rdt = st.rdt := by
+  unfold tailEarly
+  simp only [R.st_bind]
+  (repeat' split) <;>
+    simp [stepExportTO_rdt, stepEnergyCompute_rdt, stepSosCompute_rdt, storeIf_rdt, stepExportState_rdt]
+
+theorem tailLate_rdt (s : Script α) (ke : α) (st : St α) : (tailLate s ke st).st.rdt = st.rdt := by
+  unfold tailLate
+  simp only [R.st_bind]
+  (repeat' split) <;>
+    simp [stepExportTO_rdt, stepEnergyCompute_rdt, stepSosCompute_rdt, storeIf_rdt, stepExportState_rdt]
+
+omit [Sub α] [Neg α] [OfScientific α] in
+/-- `rdt` after the three steps of the integration proper, when they all succeed:
+`rdt = tsf.second; ... if (rdt > atsf.second) rdt = atsf.second;` -/
+theorem stepIntegrate_rdt (s : Script α) (smt : SMType) (st : St α) (h : integrationOk s) :
+    (stepIntegrate s smt st).st.rdt = if s.apoF < s.apF then s.apoF else s.apF := by
+  obtain ⟨h1, h2, h3⟩ := h
+  unfold stepIntegrate
+  rcases h2 with h2 | h2 <;> simp [h1, h2, h3, Act.thrown, Res.thrown]
 
 end steps
 
